@@ -154,6 +154,10 @@ def gen_cases(ctx):
             i = rng.randrange(len(hs))
             hs = hs[:i] + rng.choice("gz:_x") + hs[i + 1:]
         add(f"bytes fromhex {hs or '-'}", lambda hs=hs: call(lambda: bytes.fromhex(hs), hx))
+        # identifiers of a JSON database go through convert_database_keyword_to_bytes: same function of the hex string
+        hid = "".join(rng.choice([c, c.upper()]) for c in (b"\x00" * rng.choice([0, 0, 1, 2]) + rand_bytes(rng, rng.randint(0, 9))).hex())
+        add(f"bytes fromhex {hid or '-'}",
+            lambda hid=hid: call(lambda: du.convert_database_keyword_to_bytes({"kw": [hid, hid]})[b"kw"][1], hx))
         # utf8 keyword conversion (convert_database_keyword_to_bytes) and the utf8/int output formats
         cps = [rng.choice([rng.randint(0x20, 0x7e), rng.randint(0xa0, 0x7ff), rng.randint(0x800, 0xd7ff),
                            rng.randint(0xe000, 0xffff), rng.randint(0x10000, 0x10ffff)])
@@ -237,6 +241,22 @@ def oracle(ctx, res: Result):
         iv = bytes.fromhex(hs)
         if bu.BytesConverter.bytes_to_int(iv) != int(hs or "0", 16):
             viol("int output format", hs, {"h": hs})
+        # a JSON database of UTF-8 keywords and hex identifiers: the hex / int / utf8 output formats reproduce it
+        kw = "".join(chr(rng.choice([rng.randint(0x21, 0x7e), rng.randint(0xa1, 0x2fff)])) for _ in range(rng.randint(1, 5)))
+        ids = [("00" * rng.choice([0, 1, 2]) + rand_bytes(rng, rng.randint(1, 8)).hex()) for _ in range(rng.randint(1, 4))]
+        ids = ["".join(rng.choice([c, c.upper()]) for c in h) for h in ids]
+        try:
+            conv = du.convert_database_keyword_to_bytes({kw: ids})
+            (kb, idb), = conv.items()
+            if bu.BytesConverter.convert_bytes(kb, "utf8") != kw:
+                viol("utf8 keyword does not round-trip through the database conversion", kw, {"keyword": kw})
+            if [bu.BytesConverter.convert_bytes(b, "hex") for b in idb] != [h.lower() for h in ids]:
+                viol("hex identifiers do not round-trip through the database conversion",
+                     f"{ids} -> {[b.hex() for b in idb]}", {"keyword": kw, "ids": ids})
+            if [bu.BytesConverter.convert_bytes(b, "int") for b in idb] != [int(h, 16) for h in ids]:
+                viol("int output format differs for database identifiers", "", {"ids": ids})
+        except Exception as e:
+            viol("database conversion raised on a valid JSON database", f"{type(e).__name__}: {e}", {"keyword": kw, "ids": ids})
         res.evaluations += 5
     return res
 
